@@ -136,6 +136,13 @@ def composition_records(ck, rnd, n):
         if cur is not c0 and not recs[-1]['raised']:
             rec, _ = record(c0, lambda c, cur=cur: cur, lib, sk, 'module:%s:composition%s:%s' % (lname, '+elim' if 'elim' in steps else '', gen.digest(mod)))
             recs.append(rec)
+    # scale: a signal with more than 256 readers (pin positions beyond 8 bits) carried through copy and pickle
+    for t in range(max(1, n // 150)):
+        c0 = gen.layered_circuit(rnd, 3, 2, fanout_hub=rnd.randint(257, 300))
+        for s in ('pickle', 'copy'):
+            rec, _ = record(c0, (lambda c: pickle.loads(pickle.dumps(c))) if s == 'pickle' else (lambda c: c.copy()), {}, set(),
+                            'module:primitive:%s:hub%d:%s' % (s, len(c0.nodes), gen.digest(gen.circuit_state(c0))))
+            recs.append(rec)
     # primitive circuits with substitute of hand-made implementations (shapes of c09.IMPL_SRC)
     impls = c09.impls()
     for t in range(n):
